@@ -36,8 +36,9 @@ def shapes(tier):
                 for cmb in itertools.product((0, 1, 2), repeat=n):   # 0: no entity name, 1: stored author unknown, 2: stored author known
                     out.append(dict(part='deletions', spec=i, kind=kind, rows=cmb))
         for n in (1, 2):
-            out.append(dict(part='edges', spec=i, n=n))
-            if n == 1 or tier == 'thorough':      # two records: 27 000 paths, 14 minutes
+            if n == 1 or i == 0:                   # batches of two on the first configuration only (the thorough run did not finish in an hour otherwise)
+                out.append(dict(part='edges', spec=i, n=n))
+            if n == 1 or (tier == 'thorough' and i == 0):      # two records: 27 000 paths, 14 minutes
                 out.append(dict(part='edge_deletion_records', spec=i, n=n))
     return out
 
